@@ -78,7 +78,10 @@ def bfs(report, model, depth, nproc=None, max_states=None):
                 raise SystemExit(2)
             for op, key, outcome, vs in res["succ"]:
                 transitions += 1
-                oc = outcome if isinstance(outcome, str) else json.dumps(core.jsonable(outcome), sort_keys=True)
+                if isinstance(outcome, dict) and "oc" in outcome:
+                    oc = "%s:%s" % (outcome.get("calc", ""), outcome["oc"])
+                else:
+                    oc = outcome if isinstance(outcome, str) else json.dumps(core.jsonable(outcome), sort_keys=True)
                 outcomes[oc] = outcomes.get(oc, 0) + 1
                 h2 = tuple(hist) + (op,)
                 for v in vs:
